@@ -802,7 +802,7 @@ class Infer:
     def signature_funcs(self, e, scope, _depth=0):
         """If `e` iterates inspect.signature(F).parameters[.values()], the
         possible F's (list of Func), else None."""
-        if _depth > 6:
+        if _depth > 16:
             return None
         if isinstance(e, ast.Name):
             r = self.prog.resolve_in(scope, e.id)
@@ -830,6 +830,20 @@ class Infer:
                 return self.signature_funcs(e.args[0], scope, _depth + 1)
             if isinstance(e.func, ast.Attribute) and e.func.attr == "values":
                 return self.signature_funcs(e.func.value, scope, _depth + 1)
+            # a repo helper that returns the signature parameters
+            for site in self.call_sites_of(e, scope):
+                if site.kind == "call" and site.callee is not scope:
+                    out = []
+                    okall = True
+                    for n in walk_own(site.callee.body):
+                        if isinstance(n, ast.Return) and n.value is not None:
+                            got = self.signature_funcs(n.value, site.callee, _depth + 1)
+                            if got is None:
+                                okall = False
+                            else:
+                                out += got
+                    if okall and out:
+                        return out
             if d in ("inspect.signature", "signature") and e.args:
                 out = []
                 for t in self.type_of(e.args[0], scope):
